@@ -4,9 +4,10 @@ PROPS = {
     "C06": {
         "verus": True,
         "level_text": "Proof by contract of the real link-layer functions: CRC table and loop equal the IEEE 1815 polynomial, header/body parsers accept iff every CRC is intact and return exactly the transmitted fields, formatters produce the standard frame; full input domain per function. Composition over chunkings is a lemma over the contracts.",
-        "level_note": "Reader::read_frame (async I/O) not covered, so the datagram-mode no-stitching clause is not decided; CRC of a block is a contract stub inside parse_body/format (callee proved separately).",
+        "level_note": "CRC of a block is a logged contract stub inside parse_body/format (callee proved separately, any length via Verus); body/format harnesses are per-length instances (quick: boundary lengths); Reader::read_frame is proved on a harness physical layer for two reads (stream continuity; datagram reset) with Parser::parse by contract - longer read histories are the inductive argument in DESIGN; <=3-bit error detection = syndrome harnesses + Verus linearity lemmas.",
         "not_covered": [
-            "link::reader::Reader::read_frame (async, takes PhysLayer): datagram-mode reset is two statements inside it",
+            "socket I/O below PhysLayer::read/write (replaced by the harness physical layer)",
+            "read histories longer than two reads (bounded), frame bodies only at the instantiated lengths per tier",
         ],
         "trusted": [],
         "assumptions": [],
@@ -15,7 +16,7 @@ PROPS = {
 
 PROPS["C07"] = {
     "level_text": "Proof by contract of the real link-layer decision function (process_header) against the standard's decision table for every control byte, address class, role, feature setting and FCB state; reply frame bytes; transport/session address filters as far as they are synchronous.",
-    "level_note": "Session-level 'transmits nothing in reply to a malformed broadcast' lives in async fns and is not covered; fragment parser behind a contract stub in pop_request.",
+    "level_note": "Session-level 'transmits nothing in reply to a malformed broadcast' lives in async fns and is not covered (classify returns Broadcast before any response-producing class: proved); fragment parser behind a deterministic contract stub in pop_request.",
     "not_covered": ["outstation::session::handle_one_request_from_idle error arm (async): replies to malformed broadcast"],
 }
 
@@ -66,8 +67,8 @@ PROPS["C16"] = {
 PROPS["C17"] = {
     "verus": True,
     "level_text": "Proof by contract of the retry back-off arithmetic on the full Duration domain (first delay = min, then doubling capped at max, overflow -> max), of the automatic-task state transitions including retry instant = now + delay, and of the start-up / restart-IIN / reset re-arming of the task states.",
-    "level_note": "Not covered: the fixed priority ORDER in TaskStates::next, create_next_task's wait gate, Association::{process_iin,on_restart_iin_observed,reset} and the unsolicited gating - all need Association/Task values that CBMC cannot instrument. Assumes RetryStrategy min <= max (not enforced by the constructor).",
-    "not_covered": ["master::association::TaskStates::next priority order", "master::association::Association::handle_unsolicited_response gating"],
+    "level_note": "TaskStates::next priority order proved with AutoTaskState::create_next_task behind a contract stub (Task values cannot be built under CBMC); Association::process_iin / on_restart_iin_observed / completion callbacks proved on a zeroed Association shell in which only the touched fields are written. Not covered: the async handle_unsolicited_response body (the gate FLAG it reads is proved), Association::reset (task queue), task construction. Assumes RetryStrategy min <= max (not enforced by the constructor).",
+    "not_covered": ["master::association::Association::handle_unsolicited_response (async): uses is_integrity_complete(), whose value is proved", "master::association::Association::reset (VecDeque<Task>)"],
     "assumptions": ["tokio::time::Instant::now replaced by a harness clock"],
 }
 
@@ -105,7 +106,7 @@ PROPS["C11"] = {
 }
 PROPS["C12"] = {
     "level_text": "Proof of the building blocks of outstation replies: control-field and response-header codecs (exactly 4 bytes, round trip), request/response validation (FIR+FIN, UNS only with CONFIRM / only on unsolicited responses, IIN presence), IIN2 mappings for every parse and request error, the function-info table, get_iin2, empty solicited response, the unsolicited-data and read-response builders on a real session (UNS/FIR/FIN/CON and sequence rules, size within the transmit buffer).",
-    "level_note": "Building blocks only. NOT covered: that every transmitted reply is built through them, that CONFIRM and the no-acknowledge codes are never answered, that WRITE / multi-header handlers accumulate every rejection, that whole transmitted fragments parse cleanly - all inside async dispatcher code.",
+    "level_note": "Building blocks, plus expect_sol_confirm (a fragment rejected before object parsing ends the confirm wait and is answered) and the control-echo writer (all-or-nothing per object). NOT covered: that every transmitted reply is built through them, that CONFIRM and the no-acknowledge codes are never answered, that WRITE / multi-header handlers accumulate every rejection, that whole transmitted fragments parse cleanly - all inside async dispatcher code.",
     "not_covered": ["outstation::session::handle_non_read / write_error_response / handle_write (async + dispatcher)"],
 }
 
